@@ -4,7 +4,7 @@
 run_part(ck, tier) adds to the vlib.Check of C02:
   * TLC: exhaustive check of RawStream (unframed queue pipe; file streams with write buffer / read-ahead as design
     freedom) and the invariants of Stream on the framed model extended by Peek,
-  * binding A: every transition of the three bounded models replayed into drv/rawstream.cpp
+  * binding A: every transition of the bounded models replayed into drv/rawstream.cpp
     (sections framed / raw / file; C functions and the mpt++ wrappers),
   * binding B: seeded longer histories (shipped framings with peeks, unframed queues, file sessions with sizes
     around the 8 / 64 / 256 byte buffer steps) recorded from the real code and validated by TLC.
@@ -20,12 +20,10 @@ TAG = "x02"
 ALL = 1000000
 CFG = {
     "quick":    dict(mc="MC_RawStream.cfg", gen=[("Gen_FramedPeek", "Gen_FramedPeek.cfg"),
-                                                  ("Gen_RawStream", "Gen_RawStream_raw.cfg"),
-                                                  ("Gen_RawStream", "Gen_RawStream_file.cfg")],
+                                                  ("Gen_RawStream", "Gen_RawStream.cfg")],
                      nframed=16, nmsg=5, nraw=16, rawsteps=60, nfile=24, sessions=3, fsteps=14),
     "thorough": dict(mc="MC_RawStream_t.cfg", gen=[("Gen_FramedPeek", "Gen_FramedPeek_t.cfg"),
-                                                    ("Gen_RawStream", "Gen_RawStream_raw_t.cfg"),
-                                                    ("Gen_RawStream", "Gen_RawStream_file_t.cfg")],
+                                                    ("Gen_RawStream", "Gen_RawStream_t.cfg")],
                      nframed=120, nmsg=8, nraw=120, rawsteps=150, nfile=200, sessions=5, fsteps=30),
 }
 STEPS = [1, 2, 3, 7, 8, 9, 15, 16, 17, 63, 64, 65, 255, 256, 257, 300]
@@ -379,7 +377,7 @@ def run_part(ck, tier):
     notes = ck.notes.setdefault("x02_raw", {})
     pool = concurrent.futures.ThreadPoolExecutor(max_workers=6)
     try:
-        # 1. exhaustive model check and the three behaviour exports side by side
+        # 1. exhaustive model check and the behaviour exports side by side
         fmc = pool.submit(vlib.tlc, "MC_RawStream", cfg["mc"], workers=max(vlib.NCPU // 2, 2), tag="MC_RawStream_" + tier)
         dumps, fgen = [], []
         for mod, c in cfg["gen"]:
